@@ -170,6 +170,12 @@ impl CryptoCore {
             extra.write_u8(self.current_key as u8).unwrap();
             extra.write_all(&key.send_nonce.as_bytes()[5..]).unwrap();
         }
+        #[cfg(dswd_vpncloud_verif)]
+        VERIF_SEAL_LOG.with(|l| {
+            if let Some(log) = l.borrow_mut().as_mut() {
+                log.push((verif_fingerprint(&key.key), *key.send_nonce.as_bytes()))
+            }
+        });
         let nonce = aead::Nonce::assume_unique_for_key(*key.send_nonce.as_bytes());
         let tag = key.key.seal_in_place_separate_tag(nonce, aead::Aad::empty(), data).expect("Failed to encrypt");
         tag_space.clone_from_slice(tag.as_ref());
@@ -228,6 +234,51 @@ impl CryptoCore {
         for k in &mut self.keys {
             k.update_min_nonce();
         }
+    }
+}
+
+#[cfg(dswd_vpncloud_verif)]
+thread_local! {
+    pub static VERIF_SEAL_LOG: std::cell::RefCell<Option<Vec<([u8; 16], [u8; NONCE_LEN])>>> = std::cell::RefCell::new(None);
+}
+
+#[cfg(dswd_vpncloud_verif)]
+fn verif_fingerprint(key: &LessSafeKey) -> [u8; 16] {
+    let nonce = aead::Nonce::assume_unique_for_key([0xff; NONCE_LEN]);
+    let tag = key.seal_in_place_separate_tag(nonce, aead::Aad::empty(), &mut []).expect("fingerprint");
+    let mut fp = [0; 16];
+    fp.copy_from_slice(tag.as_ref());
+    fp
+}
+
+#[cfg(dswd_vpncloud_verif)]
+pub fn verif_nonce_increment(bytes: [u8; NONCE_LEN]) -> [u8; NONCE_LEN] {
+    let mut n = Nonce(bytes);
+    n.increment();
+    n.0
+}
+
+#[cfg(dswd_vpncloud_verif)]
+impl CryptoCore {
+    pub fn verif_current_key(&self) -> usize {
+        self.current_key
+    }
+
+    pub fn verif_nonce_half(&self) -> bool {
+        self.nonce_half
+    }
+
+    pub fn verif_slot_fingerprint(&self, slot: usize) -> [u8; 16] {
+        verif_fingerprint(&self.keys[slot].key)
+    }
+
+    pub fn verif_set_send_nonce(&mut self, slot: usize, bytes: [u8; NONCE_LEN]) {
+        self.keys[slot].send_nonce = Nonce(bytes)
+    }
+
+    pub fn verif_window(&self, slot: usize) -> ([u8; NONCE_LEN], [u8; NONCE_LEN], [u8; NONCE_LEN]) {
+        let k = &self.keys[slot];
+        (k.min_nonce.0, k.next_min_nonce.0, k.seen_nonce.0)
     }
 }
 
